@@ -3,5 +3,6 @@
 cd "$(dirname "$0")/.."
 T=${1:-quick}
 for p in C01 C02 C03 C04 C05 C06 C07 C08 C09 C10 C11 C12 C13 C14 C15 C16 C17 C18 C19 C20; do
-  ./run $p --tier $T 2>&1 | grep -E "VIOLATION|ok,|HARNESS|VACUOUS|KNOWN-FINDING" | cut -c1-160
+  ./run $p --tier $T 2>&1 | grep -E -A12 "VIOLATION|ok,|HARNESS|VACUOUS|KNOWN-FINDING" | grep -v "^  [a-z_]*: [0-9]" | cut -c1-200 | \
+    awk '/HARNESS/{h=14} {if (h>0 || $0 ~ /VIOLATION|ok,|VACUOUS|KNOWN-FINDING/) print; if (h>0) h--}'
 done
